@@ -421,6 +421,63 @@ Fixpoint sem (G : graph) (p : plan) : list row :=
   | PUnion a b => sem G a ++ sem G b
   end.
 
+(** ** The engine as it is: stacked filters
+    [FilterOperator::next] evaluates its predicate on *every* physical row of the chunk it gets
+    ([total_row_count]) and *replaces* the chunk's selection vector, and it drops a chunk whose
+    selection becomes empty.  So with a Filter directly on a Filter the inner predicate only decides
+    whether the chunk survives.  [semq] returns (visible rows, physical rows of the chunk); it is
+    [sem] wherever no Filter sits directly on a Filter ([no_stack], proved in ProofsOptPush), and it
+    is what the check compares the engine's rows with — for results that fit one 2048-row chunk. *)
+Fixpoint semq (G : graph) (p : plan) : list row * list row :=
+  let same (l : list row) := (l, l) in
+  match p with
+  | PEmpty => same []
+  | PScan x l => same (map (fun n => [(x, VNode n)]) (scan_nodes G l))
+  | PScanIn x l inp =>
+      same (flat_map (fun r => map (fun n => r ++ [(x, VNode n)]) (scan_nodes G l)) (fst (semq G inp)))
+  | PExpand f t ev d ty inp => same (flat_map (expand_row G f t ev d ty) (fst (semq G inp)))
+  | PFilter e inp =>
+      let '(vis, ph) := semq G inp in
+      match vis with
+      | [] => ([], [])
+      | _ => (filter (passes G e) ph, ph)
+      end
+  | PProject items inp => same (map (project_row G items) (fst (semq G inp)))
+  | PReturn items _ inp => same (map (project_row G items) (fst (semq G inp)))
+  | PJoin k conds l r => same (join_rows k (schema l) (schema r) conds (fst (semq G l)) (fst (semq G r)))
+  | PLeftJoin l r => same (left_join_rows (schema l) (schema r) (fst (semq G l)) (fst (semq G r)))
+  | PAgg groups aggs inp => same (agg_rows G groups aggs (fst (semq G inp)))
+  | PSort ks inp => same (sort_rows (rows_le G ks) (fst (semq G inp)))
+  | PSkip n inp => same (skipn n (fst (semq G inp)))
+  | PLimit n inp => same (firstn n (fst (semq G inp)))
+  | PDistinct inp => same (dedup [] (fst (semq G inp)))
+  | PUnion a b => same (fst (semq G a) ++ fst (semq G b))
+  end.
+
+Definition sem_e (G : graph) (p : plan) : list row := fst (semq G p).
+
+Definition is_filter (p : plan) : bool := match p with PFilter _ _ => true | _ => false end.
+
+(** no Filter directly on a Filter, anywhere *)
+Fixpoint no_stack (p : plan) : bool :=
+  match p with
+  | PFilter _ inp => negb (is_filter inp) && no_stack inp
+  | PScanIn _ _ i | PExpand _ _ _ _ _ i | PProject _ i | PReturn _ _ i | PAgg _ _ i
+  | PSort _ i | PSkip _ i | PLimit _ i | PDistinct i => no_stack i
+  | PJoin _ _ l r | PLeftJoin l r | PUnion l r => no_stack l && no_stack r
+  | PEmpty | PScan _ _ => true
+  end.
+
+(** the (outer, inner) predicate pairs of directly stacked filters *)
+Fixpoint stack_sig (p : plan) : list (expr * expr) :=
+  match p with
+  | PFilter e inp => (match inp with PFilter q _ => [(e, q)] | _ => [] end) ++ stack_sig inp
+  | PScanIn _ _ i | PExpand _ _ _ _ _ i | PProject _ i | PReturn _ _ i | PAgg _ _ i
+  | PSort _ i | PSkip _ i | PLimit _ i | PDistinct i => stack_sig i
+  | PJoin _ _ l r | PLeftJoin l r | PUnion l r => stack_sig l ++ stack_sig r
+  | PEmpty | PScan _ _ => []
+  end.
+
 (** ** Structural equality of plans (used to compare dumps of the implementation's plans) *)
 Definition ostr_eqb (a b : option string) : bool :=
   match a, b with
